@@ -8,9 +8,22 @@ import (
 	"strings"
 
 	"verifharness/lib"
+	"verifharness/schgen"
 
 	"github.com/ipld/go-ipld-prime/schema"
 )
+
+// the same builds on freshly generated code (op "buildg"): schemas within the generator's feature
+// set, one generated package per run (harness/schgen)
+func runGenBuilds(out *lib.Out, run string, schemas []*lib.SchTy, gc []*schgen.Case, rng *lib.Rng) {
+	if len(gc) == 0 {
+		return
+	}
+	schgen.Run(run, schemas, gc, rng, false)
+	for _, c := range gc {
+		out.Case(c.ID, "buildg", schemas[c.SI].Text(), string(c.Level), c.Route, c.V.Text(), c.Obs)
+	}
+}
 
 type loaded struct {
 	t     *lib.SchTy
@@ -53,8 +66,24 @@ func main() {
 	out := lib.OpenOut(fl.Out)
 	defer out.Close()
 	if fl.Replay != "" {
+		var gs []*lib.SchTy
+		var gc []*schgen.Case
 		for i, line := range lib.ReadLines(fl.Replay) {
 			f := strings.Split(line, "\t")
+			if len(f) >= 6 && f[1] == "buildg" {
+				t, err := lib.SchParse(f[2])
+				if err != nil {
+					panic(err)
+				}
+				lib.SchAssignNames(t, fmt.Sprintf("Rg%d", i))
+				v, err := lib.ParseVal(f[5])
+				if err != nil {
+					panic(err)
+				}
+				gs = append(gs, t)
+				gc = append(gc, &schgen.Case{ID: f[0], SI: len(gs) - 1, Op: "build", Level: f[3][0], Route: f[4], V: v})
+				continue
+			}
 			if len(f) < 6 || f[1] != "build" {
 				continue
 			}
@@ -77,6 +106,7 @@ func main() {
 			}
 			runBuild(out, f[0], load(t), f[3][0], f[4], v)
 		}
+		runGenBuilds(out, "c09-replay", gs, gc, lib.NewRng(fl.Seed))
 		return
 	}
 	n := fl.N
@@ -157,4 +187,51 @@ func main() {
 			}
 		}
 	}
+	// generated code: the corpus in the generator's feature set + dedicated schemas
+	var gs []*lib.SchTy
+	var gc []*schgen.Case
+	for i, c := range lib.SchCorpus() {
+		if !c.T.GenSupported() {
+			continue
+		}
+		lib.SchAssignNames(c.T, fmt.Sprintf("K%d", i))
+		lib.SchPatchMemberKeys(c.T, c.Level, c.V)
+		gs = append(gs, c.T)
+		for _, route := range lib.SchRoutes(c.V) {
+			if route == "node" {
+				continue // AssignNode of a foreign node on generated builders: C13's separate obligation
+			}
+			gc = append(gc, &schgen.Case{ID: fmt.Sprintf("c%d.%s.gen", i, route), SI: len(gs) - 1, Op: "build", Level: c.Level, Route: route, V: c.V})
+		}
+	}
+	ng := 12
+	if fl.Tier == "thorough" {
+		ng = 240
+	}
+	gcfg := &lib.SchGenCfg{MaxDepth: 4, ForGen: true}
+	for i := 0; i < ng; i++ {
+		t := rng.SchGen(gcfg)
+		lib.SchAssignNames(t, fmt.Sprintf("H%d", i))
+		gs = append(gs, t)
+		for _, level := range []byte{'t', 'r'} {
+			for j := 0; j < 14; j++ {
+				var mut *lib.SchMut
+				if j >= 3 {
+					mut = &lib.SchMut{R: rng, Budget: 1 + rng.Intn(2), Rate: 25}
+				}
+				v := rng.SchValue(t, level, mut)
+				var routes []string
+				for _, r := range lib.SchRoutes(v) {
+					if r != "node" {
+						routes = append(routes, r)
+					}
+				}
+				base := fmt.Sprintf("h%d.%c%d", i, level, j)
+				gc = append(gc, &schgen.Case{ID: base + ".direct.gen", SI: len(gs) - 1, Op: "build", Level: level, Route: "direct", V: v})
+				r := routes[1+rng.Intn(len(routes)-1)]
+				gc = append(gc, &schgen.Case{ID: base + "." + r + ".gen", SI: len(gs) - 1, Op: "build", Level: level, Route: r, V: v})
+			}
+		}
+	}
+	runGenBuilds(out, fmt.Sprintf("c09-%s-s%d", fl.Tier, fl.Seed), gs, gc, rng)
 }
